@@ -82,6 +82,22 @@ Definition relative_to (parts : list str) (other : list str) : option (list str)
   let to := get_parts other in
   if parts_eqb (firstn (length to) parts) to then Some (get_parts (skipn (length to) parts)) else None.
 
+(* FatPath.resolve(): "." components dropped, every ".." cancels the component before it (at the root it is simply
+   dropped); relative paths are refused (None = ValueError).  The code removes the leftmost ".." first, again and
+   again; that is this stack machine. *)
+Definition is_dot (p : str) : bool := str_eqb p [46].
+Definition is_dotdot (p : str) : bool := str_eqb p [46; 46].
+Fixpoint resolve_go (acc : list str) (rest : list str) : list str :=
+  match rest with
+  | [] => rev acc
+  | p :: r => if is_dotdot p then resolve_go (tl acc) r else resolve_go (p :: acc) r
+  end.
+Definition resolve_parts (parts : list str) : option (list str) :=
+  match parts with
+  | [] :: rest => Some ([] :: resolve_go [] (filter (fun p => negb (is_dot p)) rest))
+  | _ => None
+  end.
+
 (* ------------------------------------------------------------------ laws *)
 (* canonical tuples: no part holds a slash, only the first may be empty *)
 Definition slash_free (p : str) : bool := forallb (fun c => negb (c =? 47)) p.
@@ -260,6 +276,47 @@ Qed.
 (* an absolute argument replaces the path; is_absolute is decided by the root marker *)
 Theorem joinpath_absolute parts o : is_absolute (get_parts o) = true -> joinpath parts o = get_parts o.
 Proof. unfold joinpath. intros ->. reflexivity. Qed.
+
+(* resolve() leaves no "." and no ".." behind, changes nothing in a path that has none, and is idempotent *)
+Definition dot_free (l : list str) : bool := forallb (fun p => negb (is_dot p) && negb (is_dotdot p)) l.
+Lemma resolve_go_free rest : forall acc, dot_free acc = true -> forallb (fun p => negb (is_dot p)) rest = true ->
+  dot_free (resolve_go acc rest) = true.
+Proof.
+  induction rest as [|p r IH]; intros acc A F; cbn [resolve_go].
+  - unfold dot_free in *. rewrite forallb_forall in *. intros x Hx. apply A, in_rev, Hx.
+  - cbn [forallb] in F. apply andb_true_iff in F as [F1 F2]. destruct (is_dotdot p) eqn:D.
+    + apply IH; [destruct acc as [|a acc']; [reflexivity|cbn [tl]; cbn [dot_free forallb] in A; apply andb_true_iff in A; apply A]|exact F2].
+    + apply IH; [cbn [dot_free forallb]; rewrite F1, D; exact A|exact F2].
+Qed.
+Lemma filter_no_dot l : forallb (fun p => negb (is_dot p)) (filter (fun p => negb (is_dot p)) l) = true.
+Proof. induction l as [|p r IH]; [reflexivity|]. cbn [filter]. destruct (negb (is_dot p)) eqn:E; [cbn [forallb]; rewrite E; exact IH|exact IH]. Qed.
+Theorem resolve_dot_free parts r : resolve_parts parts = Some r -> exists rest, r = [] :: rest /\ dot_free rest = true.
+Proof.
+  destruct parts as [|[|c p0] rest]; cbn [resolve_parts]; try discriminate. intros H. inversion H; subst.
+  eexists. split; [reflexivity|]. apply resolve_go_free; [reflexivity|apply filter_no_dot].
+Qed.
+Lemma filter_id_free l : dot_free l = true -> filter (fun p => negb (is_dot p)) l = l.
+Proof.
+  induction l as [|p r IH]; intros H; [reflexivity|]. cbn [dot_free forallb] in H. apply andb_true_iff in H as [H1 H2].
+  apply andb_true_iff in H1 as [H1 _]. cbn [filter]. rewrite H1. f_equal. apply IH, H2.
+Qed.
+Lemma resolve_go_id l : forall acc, dot_free l = true -> resolve_go acc l = rev acc ++ l.
+Proof.
+  induction l as [|p r IH]; intros acc H; cbn [resolve_go]; [rewrite app_nil_r; reflexivity|].
+  cbn [dot_free forallb] in H. apply andb_true_iff in H as [H1 H2]. apply andb_true_iff in H1 as [_ H1].
+  destruct (is_dotdot p); [discriminate|]. rewrite (IH (p :: acc) H2). cbn [rev]. rewrite <- app_assoc. reflexivity.
+Qed.
+Theorem resolve_id rest : dot_free rest = true -> resolve_parts ([] :: rest) = Some ([] :: rest).
+Proof. intros H. cbn [resolve_parts]. rewrite (filter_id_free rest H), (resolve_go_id rest [] H). reflexivity. Qed.
+Theorem resolve_idempotent parts r : resolve_parts parts = Some r -> resolve_parts r = Some r.
+Proof. intros H. destruct (resolve_dot_free parts r H) as (rest & -> & F). apply resolve_id, F. Qed.
+
+Example resolve_examples :
+  resolve_parts [[]; [97]; [98]; [46; 46]; [99]] = Some [[]; [97]; [99]] /\                        (* /a/b/../c -> /a/c *)
+  resolve_parts [[]; [97]; [98]; [99]; [100]; [46; 46]; [101]] = Some [[]; [97]; [98]; [99]; [101]] /\
+  resolve_parts [[]; [46; 46]; [97]] = Some [[]; [97]] /\ resolve_parts [[]; [97]; [46]; [46; 46]; [46; 46]] = Some [[]] /\
+  resolve_parts [[97]; [46; 46]] = None /\ resolve_parts [] = None.
+Proof. repeat split; reflexivity. Qed.
 
 Example path_examples :
   get_parts [[47; 97; 47; 47; 98; 47]] = [[]; [97]; [98]] /\                         (* "/a//b/" *)
